@@ -246,6 +246,20 @@ class Api:
 
     OWN_FILTER = 'query.filter(model.project_id == security.get_project_id())'
 
+    def owner_check_form(self):
+        """_check_owner(db_obj): NotAllowedException unless admin or the row's project is the caller's."""
+        f = self.funcs.get('_check_owner')
+        if f is None:
+            raise TranslateError('_check_owner is not defined')
+        body = strip_doc(f.body)
+        ok = (len(body) == 2 and [a.arg for a in f.args.args] == ['db_obj']
+              and U(body[0]) == 'is_admin = context.has_ctx() and context.ctx().is_admin'
+              and isinstance(body[1], ast.If) and not body[1].orelse and len(body[1].body) == 1
+              and U(body[1].test) == 'not is_admin and db_obj.project_id != security.get_project_id()'
+              and isinstance(body[1].body[0], ast.Raise) and U(body[1].body[0].exc.func) == 'exc.NotAllowedException')
+        if not ok:
+            raise TranslateError('_check_owner is not of the recognised form')
+
     def writable_mode(self, call, flag_state):
         """_writable_query(model[, insecure]): model_query for admins (or insecure=True), otherwise
         _secure_query restricted to the caller's own rows.  Recognised structurally."""
@@ -760,6 +774,16 @@ class Api:
                     raise TranslateError('%s: check_db_obj_access after the mutation' % name)
                 v['checked'] = True
                 return
+            if fn == '_check_owner':
+                self.owner_check_form()
+                v = env.get(c.args[0].id) if c.args and isinstance(c.args[0], ast.Name) else None
+                if not v or v.get('kind') != 'obj':
+                    raise TranslateError('%s: _check_owner on an untracked value' % name)
+                if st['effects']:
+                    raise TranslateError('%s: _check_owner after the mutation' % name)
+                if not v['checked']:
+                    v['checked'] = 'owner'
+                return
             if isinstance(c.func, ast.Attribute) and isinstance(c.func.value, ast.Name) and c.func.value.id in env:
                 v = env[c.func.value.id]
                 if c.func.attr == 'update' and v.get('kind') in ('obj', 'new'):
@@ -1064,6 +1088,10 @@ def coq_b(b):
     return 'true' if b else 'false'
 
 
+def coq_g(chk):
+    return {False: 'GNone', None: 'GNone', True: 'GAccess', 'owner': 'GOwner'}[chk]
+
+
 def shape_term(e):
     k = e['kind']
     fetch = lambda q, s: '(mkFetch %s %s)' % (q, s)
@@ -1078,16 +1106,16 @@ def shape_term(e):
     if k == 'create':
         return 'SCreate %s' % coq_b(e['forced'])
     if k == 'update':
-        return 'SUpdate %s %s %s' % (fetch(e['q'], e['sel']), coq_b(e['chk']), coq_b(e['forced']))
+        return 'SUpdate %s %s %s' % (fetch(e['q'], e['sel']), coq_g(e['chk']), coq_b(e['forced']))
     if k == 'delete_obj':
-        return 'SDeleteObj %s %s %s' % (fetch(e['q'], e['sel']), coq_b(e['chk']), coq_b(e['cascade']))
+        return 'SDeleteObj %s %s %s' % (fetch(e['q'], e['sel']), coq_g(e['chk']), coq_b(e['cascade']))
     if k == 'delete_query':
         return 'SDeleteQuery %s' % fetch(e['q'], e['sel'])
     if k == 'delete_all':
         return 'SDeleteAll %s' % e['q']
     if k == 'create_or_update':
         return 'SCreateOrUpdate %s %s %s %s' % (fetch(e['probe_q'], e['probe_sel']), fetch(e['q'], e['sel']),
-                                                coq_b(e['chk']), coq_b(e['forced']))
+                                                coq_g(e['chk']), coq_b(e['forced']))
     if k == 'internal':
         return 'SInternal'
     raise TranslateError('no shape for kind %s' % k)
